@@ -258,11 +258,27 @@ def run(prog, chk):
             r2.ok(fname, "%d stores, all after the clean/delegation (%d clean sites)" % (len(stores), len(cleans)))
     # existing-target paths of clone / get_value / map_set_item
     cl = prog.fn("cif_value_clone")
-    cleans = [(b.id, i) for (b, i, r, c) in cl.calls_to("cif_value_clean")] + [(b.id, i) for (b, i, r, c) in cl.calls_to("cif_value_create")]
-    stores = [(b.id, i, a) for (b, i, r, a) in cl.eval_sites("asg") if (path(strip(a.get("lhs"))) or "").startswith("temp->")]
-    helper_calls = [(b.id, i, c) for (b, i, r, c) in cl.calls() if (c.get("callee") or "").startswith("cif_value_clone_")]
+    out_p = cl.params[1]["name"] if len(cl.params) > 1 else "clone"
+    # the locals through which the destination object is written: assigned from *clone, or filled by cif_value_create(.., &v)
+    dest = set()
+    for (b, i, r, a) in cl.eval_sites("asg"):
+        if a.get("op") == "=" and path(strip(a.get("rhs"))) == "*" + out_p and path(strip(a.get("lhs"))):
+            dest.add(path(strip(a.get("lhs"))))
+    for (b, i, r, c) in cl.calls_to("cif_value_create"):
+        for a in c.get("args", []):
+            a = strip(a)
+            if isinstance(a, dict) and a.get("k") == "un" and a.get("op") == "&" and path(strip(a.get("e"))):
+                dest.add(path(strip(a.get("e"))))
+    cleans = [(b.id, i) for (b, i, r, c) in cl.calls_to("cif_value_clean") if c.get("args") and path(strip(c["args"][0])) in dest] \
+        + [(b.id, i) for (b, i, r, c) in cl.calls_to("cif_value_create")]
+    stores = [(b.id, i, a) for (b, i, r, a) in cl.eval_sites("asg") if any((path(strip(a.get("lhs"))) or "").startswith(d + "->") for d in dest)]
+    helper_calls = [(b.id, i, c) for (b, i, r, c) in cl.calls()
+                    if ((c.get("callee") or "").startswith("cif_value_clone_") and any(re.match(r"^[\(&\*]*(%s)->" % "|".join(map(re.escape, dest)), show(a)) for a in c.get("args", [])[1:]))
+                    or (c.get("callee") in ("memcpy", "memmove") and c.get("args") and path(strip(c["args"][0])) in dest)] if dest else []
     bad = [x for x in stores + helper_calls if not cfgq.must_precede(cl, (x[0], x[1]), cleans)]
-    if bad or not cleans:
+    if not dest:
+        raise Broken("cif_value_clone: no local through which the destination is written was found")
+    if bad or not cleans or not (stores or helper_calls):
         r2.violation(cl.file, cl.name, cl.line, "store-before-clean:cif_value_clone", "cif_value_clone writes into an existing target before cleaning it")
     else:
         r2.ok("cif_value_clone", "existing target cleaned (or fresh value created) before %d writes" % (len(stores) + len(helper_calls)))
@@ -417,6 +433,10 @@ def run(prog, chk):
     if memrules.clean_resets_bounds(prog, r9) < 2:
         raise Broken("no counter bounding a block released by a *_clean helper found (expected the list's size and capacity)")
     element_identity_rule(prog, chk)
+    r11 = chk.rule("R11-source-read-before-destination-cleaned", "a function that copies one value onto an existing one cleans the "
+                   "destination only after it has read the source (the new value of a member may be part of that member)", floor=1)
+    if memrules.destination_cleaned_before_source_read(prog, r11) < 1:
+        raise Broken("no function cleaning a destination value found")
 
 
 # who may replace or release the object in a list's element slot: insertion (shifts and stores the clone), removal, tear-down
